@@ -55,22 +55,29 @@ theorem stacking_classes_eq (k : Kind) :
 theorem cell_not_block_level (k : Kind) : k.dispCell = true → k.dispBlockLevel = false := by
   cases k <;> decide
 
-/-- The classes whose own background and border are painted when they root a context: point 2, or
-point 6 for inline boxes; the page box is painted by `draw_page`.  Every other instantiable class is
-listed here by name: they are the subject of known finding `context-root-loses-decoration`
-(grid containers and table parts) or cannot root a context (line and text boxes, abstract classes). -/
+/-- The classes whose own background and border are painted when they root a context: point 2 (grid
+containers included since repair a9887a3), or point 6 for inline boxes; the page box is painted by
+`draw_page`.  Every other instantiable class is listed here by name: table parts — the subject of known
+finding `context-root-loses-decoration` — or classes that cannot root a context (line and text boxes,
+abstract classes). -/
 theorem own_decoration_classes (k : Kind) :
     k.drawOwnDecoration = true ∨ k.drawInline = true ∨ k.drawPage = true ∨
-    k ∈ [Kind.GridContainerBox, .GridBox, .InlineGridBox, .TableBox, .InlineTableBox, .TableRowGroupBox,
+    k ∈ [Kind.TableBox, .InlineTableBox, .TableRowGroupBox,
          .TableRowBox, .TableColumnGroupBox, .TableColumnBox, .LineBox, .TextBox,
          .Box, .ParentBox, .BlockLevelBox, .BlockContainerBox, .InlineLevelBox, .AtomicInlineLevelBox] := by
   cases k <;> decide
 
+/-- Every flex and grid container class, block-level or inline-level, is painted by point 2. -/
+theorem flex_grid_roots_decorated (k : Kind) :
+    k ∈ [Kind.FlexContainerBox, .FlexBox, .InlineFlexBox, .GridContainerBox, .GridBox, .InlineGridBox] →
+      k.drawOwnDecoration = true := by
+  cases k <;> decide
+
 /-- Point 2 covers every block-level class except tables (painted by `draw_table` at point 4 when
-they are in flow) and grid boxes. -/
+they are in flow). -/
 theorem block_level_decoration (k : Kind) :
     k.dispBlockLevel = true →
-      k.drawOwnDecoration = true ∨ k ∈ [Kind.TableBox, .InlineTableBox, .GridBox, .BlockLevelBox] := by
+      k.drawOwnDecoration = true ∨ k ∈ [Kind.TableBox, .InlineTableBox, .BlockLevelBox] := by
   cases k <;> decide
 
 /-- The two `LineBox` tests and the two `TextBox` tests of the drawing code agree, inline boxes take the
@@ -341,8 +348,8 @@ theorem points_4_7_follow_the_tree (pov : Bool) (kids : List Box) (e : Env) :
 /-- **paint_once (partial: backgrounds, block / line / inline / inline-block grammar, painted root
 classes).**  Full statement of the property clause: *every box's background occurs exactly once in
 the display list of its page, unless it lies under a box with a singular transform (then not at all)*.
-It is false of the current code when a grid container or a table row / row group roots a context
-(`Witness.C17`), so it is proved for structures in which every context root is of a class painted by
+It is false of the current code when a table row / row group roots a context (`Witness.C17`; grid
+containers were repaired by a9887a3 and are inside `rootPainted` now), so it is proved for structures in which every context root is of a class painted by
 point 2 or point 6 (`rootPainted`), whose `blocks` / `blocks_and_cells` are those of the dispatcher, and
 whose trees follow the block / line / inline / atomic-inline grammar (`wfCtx`; tables in flow are
 outside this theorem and covered by the correspondence only).  `expBg` lists the boxes with a painted
